@@ -17,14 +17,19 @@ THEOREMS = [
     ('EAO.Properties.C15', 'EAO.C15.fix_window_value_unchanged', 'with unchanged costs an optimal previous solution stays optimal: the optimal value is unchanged'),
 ]
 COMPONENTS = ['fixWindow vs Portfolio.setup_optim_problem(fix_time_window=...) (bounds, fixed variable set)']
-RULE = ('random portfolios incl. transports, multi-commodity, CHP with fuel, coarse assets, order books (several mapping rows per variable); window as index mask or date; '
-        'second stream (idx*): window as Python list / int64 array / int32 array of time step INDICES or as the equivalent boolean mask, shapes: only step 0, '
-        'step 0 among others, one single other step, the last step, unsorted with duplicates (with and without step 0), all steps, empty (list, integer array, all-False mask); '
-        'every such window goes through the unsplit AND (T >= 4) the split set-up; '
+RULE = ('random portfolios incl. transports, multi-commodity, CHP with fuel, coarse assets, order books (several mapping rows per variable); window as index mask '
+        '(numpy mask, every third one as plain Python list of bools) or date; '
+        'second stream (idx*): window as time step INDICES (Python list of ints / of numpy ints, int64 array, int32 array) or as the equivalent boolean mask (numpy bool array, '
+        'Python list of bools as from mask.tolist() / JSON, Python list of numpy bools), shapes: only step 0, '
+        'step 0 among others, one single other step, the last step, unsorted with duplicates (with and without step 0), all steps, empty (list, integer array, all-False mask), '
+        'a contiguous run in the middle of the horizon starting at an odd step (inside a step of a coarse / periodic asset); every shape goes through every form it can be written in; '
+        'containers the set-up may refuse (tuple of ints / of bools, pandas Series of ints / of bools, pandas Index, numpy mask of dtype object) are tried too: a refusal is recorded '
+        'as feature (window-form-rejected, split-window-form-rejected) and the window goes on as numpy array, an acceptance is held to the same oracle; '
+        'every such window goes through the unsplit AND (T >= 4) the split set-up (the object-dtype mask too: both set-ups refuse it since fix 1f28d50, finding F-15e); '
         'new random prices; non-trivial = window fixes some but not all variables and the previous solution has non-zero fixed entries; distinct by scenario hash')
 ASSUMPTIONS = ['re-optimised values compared with tolerance 1e-6 relative']
 EXPLANATION = ('theorems about the model fixWindow; correspondence of the produced bounds; oracle: exactly the variables with a mapping row whose step lies in the window have both bounds at the previous value, '
-               'all other bounds, costs and restrictions are those of the problem without window (unsplit and split set-up; the set of steps of a window given as indices is the set of its entries); '
+               'all other bounds, costs and restrictions are those of the problem without window (unsplit and split set-up; the set of steps of a window given as indices is the set of its entries, of a window given as mask the set of its True positions - whatever the container); '
                're-optimise the real problem with new prices (fixed entries equal) and with old prices (value unchanged)')
 
 # an EMPTY PYTHON LIST `[]` as window in the SPLIT set-up used to raise IndexError inside eaopack (np.asarray([]) is float64); repaired
@@ -32,13 +37,42 @@ EXPLANATION = ('theorems about the model fixWindow; correspondence of the produc
 # False would hand it over as empty integer array instead (development switch only).
 SPLIT_EMPTY_LIST = True
 
-IDX_SHAPES = ['only0', 'zero+others', 'single', 'unsorted-dup', 'only0', 'last', 'zero+others', 'unsorted-dup0', 'empty', 'all']
+IDX_SHAPES = ['only0', 'zero+others', 'single', 'unsorted-dup', 'only0', 'last', 'zero+others', 'unsorted-dup0', 'empty', 'all', 'run']
+
+# the forms in which one and the same window (a set of time steps) is handed over as fix_time_window['I']
+#   steps named by their indices:   'list' Python list of ints, 'array' / 'array32' numpy int64 / int32 array, 'nplist' Python list of numpy ints
+#   boolean mask over the grid:     'bool' numpy bool array, 'boollist' Python list of Python bools (mask.tolist(), a list comprehension, a mask
+#                                   read from JSON), 'npboollist' Python list of numpy bools (list(mask))
+INDEX_FORMS = ['list', 'array', 'array32', 'nplist']
+MASK_FORMS = ['bool', 'boollist', 'npboollist']
+# containers the documentation ("indices on timegrid") does not name and the set-up of /repo a65962a refuses (tuple, pandas Series / Index:
+# AssertionError "must be date or array" in both set-ups; numpy mask of dtype object: IndexError of numpy in the unsplit set-up).  A refusal is out of
+# scope (feature window-form-rejected / split-window-form-rejected, the window goes on as plain numpy array) - but a set-up that TAKES such a
+# container has to pin exactly the steps it names, like for every other form.
+PROBE_INDEX_FORMS = ['tuple', 'series', 'index']
+PROBE_MASK_FORMS = ['booltuple', 'boolseries', 'boolobj']
+PROBE_FORMS = set(PROBE_INDEX_FORMS + PROBE_MASK_FORMS)
+ALL_MASK_FORMS = set(MASK_FORMS + PROBE_MASK_FORMS)
+
+# (finding F-15e, repaired in /repo 1f28d50; before:) a numpy boolean mask of dtype OBJECT (e.g. the .values of a pandas object column) is refused by the unsplit
+# set-up (IndexError of numpy) but TAKEN by setup_split_optim_problem, which reads it as the integer indices 0 and 1 (np.asarray(..., dtype=int) in the
+# branch `my_I.dtype != bool`): steps 0 and 1 are pinned instead of the masked steps.  False keeps this form away from the split set-up
+# (feature 'split-fix:object-mask-skipped(TODO)', development switch only); True hands it over (both set-ups must refuse it now, or pin exactly the masked steps).
+SPLIT_OBJECT_MASK = True
+
+
+def form_cycle(maskable):
+    """the forms usable for a window shape, in the order in which the scenarios of this shape go through them (the forms the set-up is known to
+    take twice, the others once)"""
+    acc = INDEX_FORMS + (MASK_FORMS if maskable else [])
+    probe = PROBE_INDEX_FORMS + (PROBE_MASK_FORMS if maskable else [])
+    return acc + probe[::2] + acc + probe[1::2]
 
 
 def draw_index_window(r2, T, shape):
     """a window as list of time step indices (0 <= index < T) of the given shape, and the forms in which it can be handed over"""
     others = list(range(1, T))
-    forms = ['list', 'array', 'array32', 'bool']
+    maskable = True
     if shape == 'only0':
         idx = [0]
     elif shape == 'zero+others':
@@ -56,26 +90,57 @@ def draw_index_window(r2, T, shape):
             r2.shuffle(idx)
             if idx != sorted(idx) or len(set(idx)) == 1:
                 break
-        forms = ['list', 'array', 'array32']          # order and repetition cannot be written as a mask
+        maskable = False                               # order and repetition cannot be written as a mask
     elif shape == 'empty':
         idx = []
+    elif shape == 'run':
+        # a contiguous run of steps in the middle of the horizon that starts at an ODD step (inside a step of an asset with a coarser frequency
+        # or a period of 2 or 4 grid steps, mostly also of 3) and does not reach the end if there is room: no prefix, no suffix
+        a = r2.choice(others[::2]) if others else 0
+        b = r2.randint(a, max(a, T - 2))
+        idx = list(range(a, b + 1))
     else:
         idx = list(range(T))
-    return idx, forms
+    return idx, form_cycle(maskable)
 
 
 def window_arg(fx, T):
     """a fresh object for fix_time_window['I'] of an index window in its form"""
-    idx, form = list(fx['idx']), fx['form']
+    idx, form = [int(i) for i in fx['idx']], fx['form']
+    m = np.zeros(T, dtype=bool)
+    m[np.array(idx, dtype=np.int64)] = True
     if form == 'list':
-        return [int(i) for i in idx]
+        return list(idx)
     if form == 'array':
         return np.array(idx, dtype=np.int64)
     if form == 'array32':
         return np.array(idx, dtype=np.int32)
-    m = np.zeros(T, dtype=bool)
-    m[np.array(idx, dtype=np.int64)] = True
-    return m
+    if form == 'nplist':
+        return list(np.array(idx, dtype=np.int64))
+    if form == 'tuple':
+        return tuple(idx)
+    if form == 'series':
+        return pd.Series(idx, dtype='int64')
+    if form == 'index':
+        return pd.Index(np.array(idx, dtype=np.int64))
+    if form == 'bool':
+        return m
+    if form == 'boollist':
+        return m.tolist()
+    if form == 'npboollist':
+        return list(m)
+    if form == 'booltuple':
+        return tuple(m.tolist())
+    if form == 'boolseries':
+        return pd.Series(m)
+    if form == 'boolobj':
+        return m.astype(object)
+    raise ValueError('unknown window form %r' % (form,))
+
+
+def plain_window_arg(fx, T):
+    """the same window as plain numpy array (mask for the mask forms, int64 indices else)"""
+    return window_arg(dict(fx, form='bool' if fx['form'] in ALL_MASK_FORMS else 'array'), T)
 
 
 def scenarios(seed, tier):
@@ -99,18 +164,21 @@ def scenarios(seed, tier):
         s['fix'] = {'mode': mode, 'mask': mask, 'k': k}
         s['prices2'] = {key: [gen.q8(r2, -4, 20) if key.startswith('p') else v for v in vals] for key, vals in s['prices'].items()}
         yield 'gen%d' % i, s
-    # second stream: the window as list / array of time step INDICES (or the equivalent mask) of every shape, each through the unsplit
-    # and the split set-up
-    n2 = 240 if tier == 'quick' else 1500
+    # second stream: the window as time step INDICES or as the equivalent mask, every shape in every form (container) it can be written in,
+    # each through the unsplit and the split set-up
+    n2 = 330 if tier == 'quick' else 1650
     rnd2 = random.Random(seed * 104729 + 1515)
     for i in range(n2):
         r2 = random.Random(rnd2.getrandbits(48))
         s = gen.gen_portfolio(r2, tmax=10 if tier == 'quick' else 16, tz_prob=0.1, tmin=2 if i % 5 == 4 else 4,
                               kinds=['simple', 'contract', 'transport', 'ext_transport', 'storage', 'storage2', 'multi', 'orderbook', 'plant', 'chp', 'scaled'])
         T = s['grid']['T_nominal']
-        shape = IDX_SHAPES[(i + seed) % len(IDX_SHAPES)]
+        slot = (i + seed) % len(IDX_SHAPES)
+        shape = IDX_SHAPES[slot]
         idx, forms = draw_index_window(r2, T, shape)
-        s['fix'] = {'mode': 'index', 'mask': None, 'k': 0, 'idx': idx, 'shape': shape, 'form': r2.choice(forms)}
+        # every shape goes through all its forms (n2 / len(IDX_SHAPES) >= len(forms) scenarios per slot; the two slots of a doubled shape are out of phase)
+        form = forms[(i // len(IDX_SHAPES) + 3 * slot) % len(forms)]
+        s['fix'] = {'mode': 'index', 'mask': None, 'k': 0, 'idx': idx, 'shape': shape, 'form': form}
         s['prices2'] = {key: [gen.q8(r2, -4, 20) if key.startswith('p') else v for v in vals] for key, vals in s['prices'].items()}
         yield 'idx%d' % i, s
 
@@ -160,6 +228,9 @@ def run_case(scn, drv):
     else:
         mask = np.asarray(fx['mask'], dtype=bool)
         I_arg = mask.copy()
+        if fx['k'] % 3 == 0:
+            I_arg = mask.tolist()          # the index mask as plain Python list of bools
+            feats.append('window-mask-as-list')
     if len(mask) != tg.T:
         feats.append('skip:mask-length')
         return r
@@ -171,14 +242,29 @@ def run_case(scn, drv):
     def viol(msg, **facts):
         r['violations'].append({'oracle': 'fix_window', 'detail': msg, 'facts': facts})
     # (1) rebuild with the window fixed, new prices
+    probe = fx['mode'] == 'index' and fx['form'] in PROBE_FORMS
     try:
         with Quiet():
             op_free = portf.setup_optim_problem(prices2, tg)
-            op_fix = portf.setup_optim_problem(prices2, tg, fix_time_window=user)
+            try:
+                op_fix = portf.setup_optim_problem(prices2, tg, fix_time_window=user)
+                if probe:
+                    feats.append('window-form-accepted:' + fx['form'])
+            except Exception as e:
+                if not probe:
+                    raise
+                # a container the set-up refuses: out of scope; the window goes on as plain numpy array (see PROBE_FORMS)
+                feats.append('window-form-rejected:%s:%s' % (fx['form'], impl.err_class(e)))
+                I_arg = plain_window_arg(fx, tg.T)
+                user = {'I': I_arg, 'x': x0.copy()}
+                user_snapshot = copy.deepcopy(user)
+                op_fix = portf.setup_optim_problem(prices2, tg, fix_time_window=user)
     except Exception as e:
         viol('set-up with fix_time_window raised %s: %s' % (type(e).__name__, str(e)[:200]), what='raises', err=impl.err_class(e))
         return r
     def same(a, b):
+        if isinstance(a, (pd.Series, pd.Index)) or isinstance(b, (pd.Series, pd.Index)):
+            return type(a) is type(b) and a.equals(b)
         if isinstance(a, np.ndarray) or isinstance(b, np.ndarray):
             return type(a) is type(b) and np.array_equal(a, b)
         return a == b
@@ -235,6 +321,13 @@ def run_case(scn, drv):
             feats.append('rolling-skip:' + impl.err_class(e))
     m = op_fix.mapping
     fixed_vars = sorted(set(int(i) for i in m.index[m['time_step'].isin(steps)]))
+    if m.index.duplicated().any():
+        # a variable with rows in several steps (asset with a coarser frequency, periodic asset) that the window reaches only in a later row
+        m1 = m[~m.index.duplicated(keep='first')]
+        if len(set(fixed_vars) - set(int(i) for i in m1.index[m1['time_step'].isin(steps)])):
+            feats.append('window-reaches-variable-not-in-its-first-row')
+            if fx['mode'] == 'index':
+                feats.append('window-index-reaches-variable-not-in-its-first-row')
     free_vars = [j for j in range(len(op_fix.c)) if j not in set(fixed_vars)]
     # correspondence with the model
     opj = impl.problem_json(op_free)
@@ -320,22 +413,32 @@ def run_case(scn, drv):
                 d2 = tg.timepoints[j].to_pydatetime()
                 wsteps = set(int(t) for t in tg.I[:j + 1])
             elif fx['mode'] == 'index':
-                d2 = window_arg(fx, tg.T)                    # list / integer array of step indices / mask, as in the unsplit set-up
+                d2 = window_arg(fx, tg.T)                    # step indices / mask in the same form as in the unsplit set-up
                 wsteps = set(steps)
+                if fx['form'] == 'boolobj' and not SPLIT_OBJECT_MASK:
+                    d2 = None                                # TODO see SPLIT_OBJECT_MASK
+                    feats.append('split-fix:object-mask-skipped(TODO)')
                 if fx['form'] == 'list' and not fx['idx'] and not SPLIT_EMPTY_LIST:
                     d2 = np.array([], dtype=np.int64)        # TODO see SPLIT_EMPTY_LIST
                     feats.append('split-fix:empty-list-as-int-array(TODO)')
             else:
                 d2 = mask.copy() if len(scn['assets']) % 4 else np.where(mask)[0]     # boolean mask or array of step indices
+                if fx['k'] % 3 == 0 and len(scn['assets']) % 4:
+                    d2 = mask.tolist()                       # the mask as plain Python list of bools, as in the unsplit set-up
                 wsteps = set(steps)
             xs = np.array(rs0['res'].x, dtype=float)
             op_sf = None
             try:
-                with Quiet():
-                    op_sf = rs0['portf'].setup_split_optim_problem(rs0['prices'], rs0['tg'], interval_size=interval, fix_time_window={'I': d2, 'x': xs.copy()})
+                if d2 is not None:
+                    with Quiet():
+                        op_sf = rs0['portf'].setup_split_optim_problem(rs0['prices'], rs0['tg'], interval_size=interval, fix_time_window={'I': d2, 'x': xs.copy()})
             except Exception as e:
-                viol('split set-up (interval %s) with fix_time_window raised %s: %s (the split set-up without window and the unsplit set-up with this window work)' % (
-                    interval, type(e).__name__, str(e)[:160]), what='split_raises', err=impl.err_class(e))
+                if probe:
+                    # refused by the split set-up: out of scope (see PROBE_FORMS)
+                    feats.append('split-window-form-rejected:%s:%s' % (fx['form'], impl.err_class(e)))
+                else:
+                    viol('split set-up (interval %s) with fix_time_window raised %s: %s (the split set-up without window and the unsplit set-up with this window work)' % (
+                        interval, type(e).__name__, str(e)[:160]), what='split_raises', err=impl.err_class(e))
             if op_sf is not None:
                 feats.append('split-fix')
                 if fx['mode'] == 'index':
